@@ -96,6 +96,7 @@ def _zero_edge_is_error(body, tgt):
 
 
 def run(ctx):
+  _r22_3(ctx)
   F = ctx.facts
   ctx.rule('R22.1', 'every Edict literal in wallet code whose amount derives from user input is preceded by a guard that compares that input with 0 and leaves with an error when it is 0 '
            '(same value for call-derived amounts; same source collection for amounts iterated from the split file)')
@@ -197,3 +198,65 @@ def _loop_exit_dominates(body, gbb, target_bb):
         # outermost enclosing loop reached
         return True
   return False
+
+
+def _r22_3(ctx):
+  """accumulated rune balances are summed, never overwritten; split edicts address outputs by their position in the split file"""
+  import re
+  from ..facts import origins, describe_operand, norm
+  from ..intervals import fmt_desc
+  from ..core import where
+  F = ctx.facts
+  ctx.rule('R22.3', 'in the rune transaction builders (send/burn, split) every BTreeMap<Rune, u128> that accumulates balances over several outputs is mutated only through entry(..).or_default() += / checked_add — '
+           'never through insert / extend / append, which overwrite an earlier output\'s balance')
+  ctx.rule('R22.4', 'Split::build_transaction: an edict\'s output index is base + the position of the output in the split file (enumerate directly over splits.outputs), base is 2 with a rune change output and 1 without, '
+           'and the transaction outputs are pushed in the order runestone, optional change, then splits.outputs in file order')
+  bodies = [F.body('ord::wallet::Wallet::create_unsigned_send_or_burn_runes_transaction'), F.body('ord::subcommand::wallet::split::Split::build_transaction')]
+  n_entry = 0
+  for b in bodies:
+    if not ctx.anchor('R22.3', 'rune transaction builder body', b is not None):
+      continue
+    ctx.analysed(b)
+    for c in b.calls:
+      m = re.search(r'BTreeMap(?:<.*>)?::(\w+)$|Extend(?:<.*>)?>::(extend)$|iter::Extend::(extend)$', c.name or '')
+      if not m or not c.args:
+        continue
+      meth = m.group(1) or m.group(2) or m.group(3)
+      names = {o.name for o in origins(b, c.args[0], named_terminal=True, depth=1) if o.kind in ('var', 'param') and o.name}
+      maps = [nm for nm in names for l in b.locals_named(nm) if re.search(r'BTreeMap<ordinals::(rune::)?Rune, u128>$', b.local_ty(l))]
+      if not maps:
+        continue
+      if meth == 'entry':
+        n_entry += 1
+      if meth in ('insert', 'extend', 'append', 'remove', 'clear', 'retain', 'pop_first', 'pop_last', 'split_off'):
+        ctx.ob('R22.3', b.n, f'{maps[0]}.{meth}(..)', False, f'the accumulated rune balance map `{maps[0]}` is mutated by {meth}: the balance of an earlier selected output is overwritten or dropped instead of summed', where(b, c.line))
+  ctx.floor('R22.3', 'entry(..) accumulations on rune balance maps', n_entry, 3)
+  ctx.ob('R22.3', 'ord::wallet', 'no overwriting mutation of an accumulated rune balance map', True, '', nontrivial=False)
+  sb = bodies[1]
+  if sb is not None:
+    lits = [s for blk in sb.blocks for s in blk['s'] if s.get('rv', {}).get('k') == 'agg' and norm(s['rv'].get('adt') or '').endswith('::Edict')]
+    ctx.anchor('R22.4', 'Edict literal in Split::build_transaction', len(lits) == 1, sb.n)
+    for s in lits:
+      fo = dict(zip(s['rv']['fields'], s['rv']['ops']))
+      # the index local and the iterator it is drawn from
+      sl = sb.slice_of([fo['output']], through_calls=True)
+      nexts = [c for c in sl.calls if c.is_('re:Iterator>::next$')]
+      direct = [c for c in nexts if re.search(r'^\[?std::iter::Enumerate<std::slice::Iter<', (c.f.get('ga') or '').strip())]
+      over = any('splits.outputs' in fmt_desc(describe_operand(sb, c.args[0])) or any('outputs' in map(str, o.fields) for o in origins(sb, c.args[0])) for c in direct)
+      d = fmt_desc(describe_operand(sb, fo['output']))
+      ctx.ob('R22.4', sb.n, 'edict.output = base + enumerate index taken directly over splits.outputs', bool(re.match(r'^Result::unwrap\(TryInto::try_into\(Add\(Iterator::next\(.*\)\.v:Some\.0\.0,base\)\)\)$', d)) and len(direct) >= 1 and len(direct) == len([c for c in nexts if 'Enumerate' in (c.f.get('ga') or '')]),
+             f'{d}; enumerate over {[ (c.f.get("ga") or "")[:90] for c in nexts if "Enumerate" in (c.f.get("ga") or "")]}', where(sb, s['l']))
+    bl = sb.locals_named('base')
+    vals = sorted(sb.const_of(d_['rv']['o']) for l in bl for d_ in sb.defs().get(l, []) if d_['kind'] == 'assign' and d_['rv']['k'] == 'use' and isinstance(sb.const_of(d_['rv']['o']), int))
+    ctx.ob('R22.4', sb.n, 'base is 2 (with rune change output) or 1', vals == [1, 2], f'{vals}', where(sb, sb.line))
+    pushes = sorted([c for c in sb.calls if c.is_('std::vec::Vec::push') and 'bitcoin::TxOut' in (c.f.get('ga') or '')], key=lambda c: c.bb)
+    okp = len(pushes) == 3
+    if okp:
+      d0, d1, d2 = [fmt_desc(describe_operand(sb, c.args[1])) for c in pushes]
+      from ..panics import guard_strings
+      okp = ('Runestone::encipher' in d0 and 'change_address' in d1 and any(g == 'need_rune_change_output==True' for g in guard_strings(sb, pushes[1].bb))
+             and sb.dominates(pushes[0].bb, pushes[2].bb) and '.v:Some.0.1.address' in d2)
+      sl2 = sb.slice_of([pushes[2].args[1]], through_calls=True)
+      n2 = [c for c in sl2.calls if c.is_('re:Iterator>::next$') and 'Enumerate' in (c.f.get('ga') or '')]
+      okp = okp and all(re.search(r'^\[?std::iter::Enumerate<std::slice::Iter<', (c.f.get('ga') or '').strip()) for c in n2) and len(n2) >= 1
+    ctx.ob('R22.4', sb.n, 'outputs are pushed as: runestone, change iff need_rune_change_output, then splits.outputs in file order', okp, '', where(sb, sb.line))
